@@ -8,6 +8,7 @@ mod kfmt;
 mod knative;
 mod progmc;
 mod fam_core;
+mod fam_fn;
 
 use common::Args;
 
@@ -28,6 +29,15 @@ fn main() {
             &fam_core::classify,
             None,
             "C01 families: ops(1) full alphabet x 16 contexts x {top level, function body}; ops(2) reduced alphabet; boundary leaves; assign sequences <= 2 (thorough 3); every range form; index/slice of every container kind size 0..3; if/switch/loops with iteration counts 0..3",
+            &[],
+        ),
+        "progmc-fn" => progmc::run_profile(
+            &args,
+            run::RunCfg::default(),
+            &fam_fn::generate,
+            &fam_fn::classify,
+            None,
+            "C02 families: every signature (0-2 required, 0-2 optional, variadic, captured, method) x argument counts 0..n+2 x six call spellings; structured (unpacking) arguments x 14 argument values; all statement sequences <= 3 (thorough 4) over a 13-statement capture alphabet at top level and inside a function; generator bodies <= 2 statements (thorough 3) x consumers (next x k, for+break, to_tuple, interleaved instances)",
             &[],
         ),
         other => {
